@@ -138,3 +138,52 @@ Lemma cn_canonical_ok {K} (keqb : K -> K -> bool) g (nm : cid -> K) :
 Proof.
   intros KS k p. unfold cn_canonical. rewrite filter_In, orb_true_iff, !KS. tauto.
 Qed.
+
+(** a positive layer_snap moves no surface when every column's top block is at least that high *)
+Lemma count_upset (p : nat -> bool) n : forall a m, (forall k, (a <= k < a + n)%nat -> (p k = true <-> (m <= k)%nat)) ->
+  (a <= m <= a + n)%nat -> length (filter p (seq a n)) = (a + n - m)%nat.
+Proof.
+  induction n as [|n IH]; intros a m H Hm; [cbn; lia|]. cbn [seq filter].
+  destruct (p a) eqn:E.
+  - assert (m <= a)%nat by (apply H; [lia|exact E]). assert (m = a) by lia. subst m. cbn [length].
+    rewrite (IH (S a) (S a)); [lia| |lia]. intros k Hk. split; [lia|]. intros _. apply H; lia.
+  - assert (~ (m <= a)%nat) by (intro X; apply H in X; [congruence|lia]).
+    rewrite (IH (S a) m); [lia| |lia]. intros k Hk. apply H. lia.
+Qed.
+Lemma ktop_upset g (W : wf g) i j : (i < nx g)%nat -> (j < ny g)%nat ->
+  forall k, (1 <= k <= nz g)%nat -> (has g k i j = true <-> (ktop g i j <= k)%nat).
+Proof.
+  intros Hi Hj k Hk. pose proof (wf_nz g W) as NZ.
+  (* ktop_from_spec is stated inside a section over a named grid; restate what is needed here *)
+  assert (KS : forall k0, (1 <= k0 <= nz g)%nat -> has g k0 i j = true ->
+               (1 <= ktop_from g i j k0 <= k0)%nat /\ has g (ktop_from g i j k0) i j = true /\ is_top g (ktop_from g i j k0) i j).
+  { induction k0 as [|k0 IH]; intros Hk0 Hh0; [lia|]. cbn [ktop_from]. destruct ((2 <=? S k0)%nat && has g k0 i j) eqn:E.
+    - apply andb_prop in E. destruct E as [E1 E2]. apply Nat.leb_le in E1. destruct (IH ltac:(lia) E2) as [A [B C]]. split; [lia|]. split; assumption.
+    - split; [lia|]. split; [exact Hh0|]. unfold is_top. apply andb_false_elim in E. destruct E as [E|E].
+      + apply Nat.leb_gt in E. left. lia.
+      + right. replace (S k0 - 1)%nat with k0 by lia. exact E. }
+  destruct (KS (nz g) ltac:(lia) (has_bottom g W i j Hi Hj)) as [KT [HT TT]]. fold (ktop g i j) in KT, HT, TT.
+  split.
+  - intros Hh. destruct (Nat.le_gt_cases (ktop g i j) k) as [L|L]; [exact L|]. exfalso.
+    destruct TT as [T|T]; [lia|]. pose proof (has_mono g W k (ktop g i j - 1) i j Hh ltac:(lia) ltac:(lia)). congruence.
+  - intros L. apply (has_mono g W (ktop g i j) k i j HT); lia.
+Qed.
+Lemma nosnap_high_tops g (W : wf g) snap :
+  (forall i j, (i < nx g)%nat -> (j < ny g)%nat -> snap <= gsurf g i j - bot g (ktop g i j)) ->
+  forall i j, (i < nx g)%nat -> (j < ny g)%nat -> snap_surface g snap (gsurf g i j) = gsurf g i j.
+Proof.
+  intros H i j Hi Hj. pose proof (wf_nz g W) as NZ. unfold snap_surface. destruct (qlt 0 snap); [|reflexivity].
+  assert (KT : (1 <= ktop g i j <= nz g)%nat).
+  { pose proof (ktop_upset g W i j Hi Hj (nz g) ltac:(lia)) as U. pose proof (proj1 U (has_bottom g W i j Hi Hj)).
+    destruct (ktop g i j) eqn:E; [|lia]. exfalso.
+    unfold ktop in E. clear - E NZ. destruct (nz g) as [|m]; [lia|]. cbn [ktop_from] in E.
+    assert (Z : forall m0, ktop_from g i j m0 = 0%nat -> m0 = 0%nat).
+    { induction m0 as [|m0 IH]; [reflexivity|]. cbn [ktop_from]. destruct ((2 <=? S m0)%nat && has g m0 i j) eqn:E2; [|discriminate].
+      intros X. apply IH in X. subst m0. cbn in E2. discriminate. }
+    destruct ((2 <=? S m)%nat && has g m i j) eqn:E2; [|discriminate]. apply Z in E. subst m. cbn in E2. discriminate. }
+  assert (NL : num_layers_of g (gsurf g i j) = (1 + nz g - ktop g i j)%nat).
+  { unfold num_layers_of. apply count_upset; [|lia]. intros k Hk.
+    rewrite <- (ktop_upset g W i j Hi Hj k ltac:(lia)). unfold has. tauto. }
+  rewrite NL. replace (S (nz g) - (1 + nz g - ktop g i j))%nat with (ktop g i j) by lia.
+  pose proof (H i j Hi Hj) as S. assert (Q : qlt (gsurf g i j - bot g (ktop g i j)) snap = false) by qc_lra. rewrite Q. reflexivity.
+Qed.
